@@ -151,7 +151,8 @@ def c04(pid, tier, replay):
         jobs = [J("arith", Variant="arith", OctB=12, SemiB=13, ChanB=0, NBase=10, split=4),
                 J("arith-chan", Variant="arith", OctB=1, SemiB=1, ChanB=15, NBase=2, split=4),
                 J("pairs", Variant="pairs", OctB=2, SemiB=2, ChanB=3, TapActions=False, split=4)]
-    return device_check(pid, tier, replay, ["C04_"], jobs, drivers=[devdrivers.random_keys], assumptions=ASSUME_DEV)
+    return device_check(pid, tier, replay, ["C04_"], jobs, drivers=[devdrivers.random_keys, devdrivers.action_axis_batches],
+                        assumptions=ASSUME_DEV)
 
 
 def c13(pid, tier, replay):
@@ -192,7 +193,8 @@ def c05(pid, tier, replay):
                          + devdrivers.c08_batches(seed, "quick"))
     jobs = [J("keys", Variant="keys", Mode="interrupt", OctB=1, ChanB=0)] if tier == "quick" else keys_jobs("quick")
     return device_check(pid, tier, replay, ["C05_"], jobs,
-                        drivers=[boundary, axes_through_parser, devdrivers.random_keys], assumptions=ASSUME_DEV[:2] + [
+                        drivers=[boundary, axes_through_parser, devdrivers.random_keys, devdrivers.action_axis_batches],
+                        assumptions=ASSUME_DEV[:2] + [
                             "configurations are rendered as TOML and parsed by the real config.ParseData"])
 
 
